@@ -523,14 +523,15 @@ def run_check(profile, tier, seed, runs=None, workers=None, digests_only=False, 
     truncated = False
     budget = float(os.environ.get("DSIM_WALL_CAP", "0") or 0) or (3000 if tier == "quick" else 6 * 3600)
     ctx = multiprocessing.get_context("fork")
-    if workers == 1 or digests_only:
+    if workers == 1:
         for ch in idx_chunks:
             out = _do_chunk(seed, ch, True)
             _merge(out, agg, digests, hist, viols, samples, harness)
     else:
         with concurrent.futures.ProcessPoolExecutor(max_workers=workers, mp_context=ctx) as ex:
             futs = [(ex.submit(_worker_chunk, (seed, ch, k < 4, timeout)), False) for k, ch in enumerate(idx_chunks)]
-            futs += [(ex.submit(_worker_chunk, (seed, ch, False, timeout)), True) for ch in reversed(det_chunks)]
+            if not digests_only:
+                futs += [(ex.submit(_worker_chunk, (seed, ch, False, timeout)), True) for ch in reversed(det_chunks)]
             try:
                 for fut, is_det in futs:
                     try:
